@@ -190,10 +190,27 @@ func MatchedKeys(keys *Keys, matched []byte, args ...byte) {
 	}
 
 	if len(args) > 0 {
-		keys.buf = append(args, keys.buf...)
+		keys.pushBack(args)
 	}
 
 	keys.mustWait = false
+}
+
+// pushBack puts keys that were popped but not used back on top of the stack.
+// Fed keys are served first: if some are still pending, the keys we are given
+// were popped from them and must go back in front of them.
+func (k *Keys) pushBack(unused []byte) {
+	if len(k.macroKeys) == 0 {
+		k.buf = append(unused, k.buf...)
+		return
+	}
+
+	fed := make([]rune, 0, len(unused)+len(k.macroKeys))
+	for _, key := range unused {
+		fed = append(fed, rune(key))
+	}
+
+	k.macroKeys = append(fed, k.macroKeys...)
 }
 
 // MatchedPrefix is similar to MatchedKeys, except that the provided keys
@@ -210,8 +227,8 @@ func MatchedPrefix(keys *Keys, prefix ...byte) {
 	// Our keys are still considered unread, but they have been:
 	// if there is no more keys in the stack, the next blocking
 	// call to WaitAvailableKeys() should block for new keys.
-	keys.mustWait = len(keys.buf) == 0
-	keys.buf = append(prefix, keys.buf...)
+	keys.mustWait = len(keys.buf) == 0 && len(keys.macroKeys) == 0
+	keys.pushBack(prefix)
 	keys.matched = []rune(string(prefix))
 }
 
